@@ -7,7 +7,8 @@ use std::collections::BTreeMap;
 
 /// memory / port contents: the same formulas as Base / IoBase in spec/Z80.tla
 pub fn base_mem(seed: u32, a: u16) -> u8 {
-    (((a as u64 + seed as u64) * 167 + (a as u64 / 256) * 59 + 13) % 256) as u8
+    let o = (a % 16384) as u64;
+    (((o + seed as u64) * 167 + (o / 256) * 59 + 13) % 256) as u8
 }
 pub fn base_io(seed: u32, p: u16) -> u8 {
     (((p as u64 + seed as u64) * 131 + (p as u64 / 256) * 37 + 7) % 256) as u8
